@@ -161,7 +161,7 @@ def run(ctx):
         # defaults
         import os as _os
         for default, envmode in [("hunter2", None), (DigestValue.create("hunter2", hfun), None), ("hunter2", "named-unset"), ("hunter2", "derived-unset"),
-                                 ("hunter2", "prefix-unset"), ("hunter2", "named-empty")]:
+                                 ("hunter2", "prefix-unset"), ("hunter2", "named-empty"), ("", None), ("", "named-unset")]:
             var = "CINCO_T_C09_PW"
             _os.environ.pop(var, None)
             s2 = Schema(env="CINCO_T_C09") if envmode == "prefix-unset" else Schema()
@@ -184,7 +184,7 @@ def run(ctx):
                 res.violate(None, "default not stored as a digest value", {"alg": alg, "env": envmode})
                 continue
             try:
-                d.challenge("hunter2")
+                d.challenge(default if isinstance(default, (str, bytes)) else "hunter2")
             except ValueError:
                 res.violate(None, "default secret does not verify", {"alg": alg})
             if isinstance(default, str) and (len(tp.log) != 1 or d.salt != tp.log[0]):
